@@ -176,6 +176,14 @@ let handle toks =
       let (nt, boxes, threads, main, _) = read_net_raw (ints rest) in
       let st = { mbs = boxes; ths = threads } in
       Printf.sprintf "%d %d" (if cover_b nt st (nat_of_int main) then 1 else 0) (if init_ok_b boxes threads then 1 else 0)
+  | "netdag" :: rest ->
+      (* netdag <network> N -> "<dag_ok_b> <fault_ok_b>" *)
+      let (nt, boxes, threads, main, r) = read_net_raw (ints rest) in
+      let st = { mbs = boxes; ths = threads } in
+      (match r with
+       | n :: _ -> Printf.sprintf "%d %d" (if dag_ok_b nt st (nat_of_int n) (nat_of_int main) then 1 else 0)
+                     (if fault_ok_b nt st (nat_of_int n) then 1 else 0)
+       | _ -> "BAD")
   | "netdigest" :: rest ->
       let (nt, st0, n, main, r) = read_net (ints rest) in
       Digest.to_hex (Digest.string (Marshal.to_string (nt, st0) [Marshal.No_sharing])) ^ " " ^ string_of_int main
